@@ -115,3 +115,39 @@ pub static LPAY: LangSig = LangSig {
 pub fn new_lsym() -> EGraph<LSym> {
     EGraph::default()
 }
+
+define_language! {
+    /// shapes language (C16): binders over bare slots, nested binders, slots around binders, payload types
+    pub enum LNest {
+        BS(Bind<Slot>) = "bs",
+        BBS(Bind<Bind<Slot>>) = "bbs",
+        NB(Slot, AppliedId) = "nb",
+        B2(Bind<AppliedId>, Bind<AppliedId>) = "b2",
+        Mix(Slot, Bind<AppliedId>, Slot) = "mix",
+        BBA(Bind<Bind<AppliedId>>, AppliedId) = "bba",
+        Three(AppliedId, AppliedId, AppliedId) = "three",
+        Ch(char) = "ch",
+        Big(i64) = "big",
+        Tag(Symbol, Slot) = "tag",
+        K() = "kk",
+        N(u32),
+    }
+}
+
+pub static LNEST: LangSig = LangSig {
+    name: "LNest",
+    ops: &[
+        OpSig { name: "bs", fields: &[Fld::X(1)] },
+        OpSig { name: "bbs", fields: &[Fld::X(2)] },
+        OpSig { name: "nb", fields: &[Fld::S, Fld::C(0)] },
+        OpSig { name: "b2", fields: &[Fld::C(1), Fld::C(1)] },
+        OpSig { name: "mix", fields: &[Fld::S, Fld::C(1), Fld::S] },
+        OpSig { name: "bba", fields: &[Fld::C(2), Fld::C(0)] },
+        OpSig { name: "three", fields: &[Fld::C(0), Fld::C(0), Fld::C(0)] },
+        OpSig { name: "ch", fields: &[Fld::P] },
+        OpSig { name: "big", fields: &[Fld::P] },
+        OpSig { name: "tag", fields: &[Fld::P, Fld::S] },
+        OpSig { name: "kk", fields: &[] },
+        OpSig { name: "#num", fields: &[Fld::P] },
+    ],
+};
